@@ -137,14 +137,17 @@ impl MemcStore {
                     })
                     .map(|mut value: u64| {
                         if increment {
-                            value += delta.delta;
+                            value = value.wrapping_add(delta.delta);
                         } else if delta.delta > value {
                             value = 0;
                         } else {
                             value -= delta.delta;
                         }
                         record.value = Bytes::from(value.to_string());
+                        // the counter keeps the flags it was stored with
+                        let flags = record.header.flags;
                         record.header = header;
+                        record.header.flags = flags;
                         self.set(key, record).map(|result| DeltaResult {
                             cas: result.cas,
                             value,
